@@ -31,6 +31,8 @@ def addrOf (signer : Nat) : Nat := if 100 < signer ∧ signer < 200 then signer 
 
 inductive Op where
   | vote (signer : Nat) (fact : String)
+  /-- `Ballotbox.VoteSignFact` (the SendBallots handler): no `checkBallot` in front -/
+  | voteSF (signer : Nat) (fact : String)
   | count
 deriving Repr, DecidableEq
 
@@ -51,6 +53,11 @@ def step (keyChecked : Bool) (S : List Nat) (t10 : Nat) (order : List String →
     else if !S.contains (addrOf signer) then r                              -- checkBallot: address not in the suffrage
     else if (r.voted.map (fun v => addrOf v.1)).contains (addrOf signer) then r   -- isVoted
     else if keyChecked && !S.contains signer then r                          -- the signer's key is not the node's
+    else countRec S t10 order { r with voted := r.voted ++ [(signer, fact)] }
+  | .voteSF signer fact =>
+    if r.finished then r
+    else if (r.voted.map (fun v => addrOf v.1)).contains (addrOf signer) then r
+    else if keyChecked && !S.contains signer then r
     else countRec S t10 order { r with voted := r.voted ++ [(signer, fact)] }
   | .count => countRec S t10 order r
 
